@@ -498,6 +498,8 @@ mod tests {
                 rack,
                 pool: None,
                 enabled_as_connected: AtomicBool::new(false),
+                #[cfg(scylla_verif)]
+                verif: Default::default(),
             }
         }
 
